@@ -1112,6 +1112,24 @@ class Machine(object):
                 return finish(AdtVal("std::option::Option", 1, {0: Cell(copy_val(deref_val(self.field_cell(ov, 0, None, None).val)))}, None, "Some"))
             if isinstance(ov, Opaque):
                 return finish(Opaque(ov.label, t["dest"]["ty"]))
+        if d in ("std::ops::ControlFlow::<B, C>::break_value", "std::ops::ControlFlow::<B, C>::continue_value"):
+            cf = deref_val(args[0])
+            want = "Break" if d.endswith("break_value") else "Continue"
+            if isinstance(cf, AdtVal) and cf.vname in ("Break", "Continue"):
+                if cf.vname == want:
+                    return finish(AdtVal("std::option::Option", 1, {0: Cell(self.field_cell(cf, 0, None, None).val)}, None, "Some"))
+                return finish(AdtVal("std::option::Option", 0, {}, None, "None"))
+            if isinstance(cf, Opaque):
+                other = "Continue" if want == "Break" else "Break"
+                s2 = copy.deepcopy(st)
+                d2 = self.find_copied_cell(st, s2, dest)
+                d2.val = AdtVal("std::option::Option", 0, {}, None, "None")
+                s2.conds.append((("variant", cf.label), other))
+                s2.frames[-1].bb = target
+                st.conds.append((("variant", cf.label), want))
+                dest.val = AdtVal("std::option::Option", 1, {0: Cell(Opaque(join_label(cf.label, want + ".0")))}, None, "Some")
+                fr.bb = target
+                return [s2]
         if d == "std::option::Option::<T>::get_or_insert":
             # *opt = Some(v) when empty; the payload (by reference) either way
             tgt = args[0]
